@@ -940,6 +940,106 @@ func waitingBehindSoftCancelled(id string, stats bool) runner.Result {
 	return res
 }
 
+// deadContextCalls: calls made with a context that is over already (and calls whose context ends while
+// they wait for their turn behind a call in flight) return the context's error, and they leave nothing
+// behind: afterwards the connection serves the next RPC.
+func deadContextCalls(id string, soft bool, behind bool) runner.Result {
+	mopts := drpcmanager.Options{SoftCancel: soft}
+	release := make(chan struct{})
+	handler := rig.HandlerFunc(func(stream drpc.Stream, rpc string) error {
+		var m []byte
+		if err := stream.MsgRecv(&m, payload.Enc{}); err != nil {
+			return nil
+		}
+		if rpc == "/slow" {
+			select {
+			case <-release:
+			case <-stream.Context().Done():
+			}
+		}
+		out := payload.Make(9, 1, 0, 0, 5)
+		return stream.MsgSend(&out, payload.Enc{})
+	})
+	rg := rig.New(rig.Config{Net: simnet.Opts{Cap: -1}, Client: mopts, Server: mopts}, handler)
+	defer rg.Teardown()
+	in := payload.Make(1, 0, 0, 0, 10)
+	var first *rig.Op
+	if behind {
+		first = rig.Go("in-flight", func() (interface{}, error) {
+			var out []byte
+			return nil, rg.Conn.Invoke(context.Background(), "/slow", payload.Enc{}, &in, &out)
+		})
+		census.Quiesce(rig.Watchdog)
+	}
+	dead, cancel := context.WithCancel(context.Background())
+	cancel()
+	desc := fmt.Sprintf("dead-context-calls soft=%v behind-a-call-in-flight=%v: a call whose context ends exactly when it has been given its turn, 24 Invoke / NewStream calls with a context that is over already, then a probe", soft, behind)
+	var fails []string
+	if !behind {
+		// the call is parked right after it was given the stream slot; its context ends there
+		park := rg.Dir.ParkAt("manager.sem.acquired", rg.Pair.A, 1)
+		tctx, tcancel := context.WithCancel(context.Background())
+		turn := rig.Go("cancelled-at-its-turn", func() (interface{}, error) {
+			var out []byte
+			return nil, rg.Conn.Invoke(tctx, "/fast", payload.Enc{}, &in, &out)
+		})
+		if st, _ := census.QuiesceOr(park.Reached(), rig.Watchdog); st == "ready" {
+			tcancel()
+			census.Quiesce(rig.Watchdog)
+		}
+		park.Release()
+		census.Quiesce(rig.Watchdog)
+		tcancel()
+		if !turn.Returned() {
+			fails = append(fails, "the call whose context ended when it was given its turn has not returned")
+		}
+	}
+	for i := 0; i < 24 && len(fails) == 0; i++ {
+		i := i
+		op := rig.Go("dead", func() (interface{}, error) {
+			if i%2 == 0 {
+				var out []byte
+				return nil, rg.Conn.Invoke(dead, "/fast", payload.Enc{}, &in, &out)
+			}
+			st, err := rg.Conn.NewStream(dead, "/fast", payload.Enc{})
+			if err == nil {
+				st.Close()
+			}
+			return nil, err
+		})
+		census.Quiesce(rig.Watchdog)
+		if !op.Returned() {
+			_, snap := census.Quiesce(rig.Watchdog)
+			fails = append(fails, fmt.Sprintf("call %d made with a context that is over already is blocked\n%s", i+1, census.Dump(census.InDRPC(snap))))
+		} else if op.Err == nil {
+			fails = append(fails, fmt.Sprintf("call %d made with a context that is over already succeeded", i+1))
+		}
+	}
+	close(release)
+	if first != nil && len(fails) == 0 && (!first.Wait() || first.Err != nil) && !rig.IsClosed(rg.Conn.Closed()) {
+		fails = append(fails, fmt.Sprintf("the call in flight, whose context nobody cancelled: returned=%v err=%v", first.Returned(), first.Err))
+	}
+	if len(fails) == 0 && !rig.IsClosed(rg.Conn.Closed()) {
+		probe := rig.Go("probe", func() (interface{}, error) {
+			var out []byte
+			return nil, rg.Conn.Invoke(context.Background(), "/fast", payload.Enc{}, &in, &out)
+		})
+		census.Quiesce(rig.Watchdog)
+		if !probe.Returned() {
+			_, snap := census.Quiesce(rig.Watchdog)
+			fails = append(fails, "after the calls with dead contexts the connection is not closed and the next RPC is blocked\n"+census.Dump(census.InDRPC(snap)))
+		} else if probe.Err != nil && !rig.IsClosed(rg.Conn.Closed()) {
+			fails = append(fails, "after the calls with dead contexts the connection is not closed and the next RPC failed: "+rig.ErrStr(probe.Err))
+		}
+	}
+	if len(fails) > 0 {
+		return runner.Violation(id, fmt.Sprintf("cancel:dead-context-calls soft=%v behind=%v", soft, behind), desc+"\n"+strings.Join(fails, "\n"))
+	}
+	res := runner.Hold(id, desc, true)
+	res.Events = 25
+	return res
+}
+
 // recvFlushStalled: manual flushing. A send is left in the writer, the transport stops taking writes,
 // and a receive is issued: in manual mode it flushes what the application left buffered, and that
 // flush is now stuck inside the transport. The call's context is cancelled. The receive is a blocked
@@ -1198,6 +1298,15 @@ func gen(tier string, seed uint64) []runner.Scenario {
 			soft, stats := soft, stats
 			id := fmt.Sprintf("waiting-calls/soft=%v/stats=%v", soft, stats)
 			out = append(out, runner.Scenario{ID: id, Run: func() runner.Result { return waitingCalls(id, soft, stats) }})
+		}
+	}
+	for _, soft := range []bool{false, true} {
+		for _, behind := range []bool{false, true} {
+			for rep := 0; rep < 3; rep++ {
+				soft, behind := soft, behind
+				id := fmt.Sprintf("dead-context-calls/soft=%v/behind=%v/%d", soft, behind, rep)
+				out = append(out, runner.Scenario{ID: id, Run: func() runner.Result { return deadContextCalls(id, soft, behind) }})
+			}
 		}
 	}
 	for _, soft := range []bool{false, true} {
